@@ -248,9 +248,24 @@ void prop(const Case& cs) {
     check_result(u2, st, 2, "permuted replay");
     hll_sketch a = u.get_result(HLL_8), b = u2.get_result(HLL_8);
     vf::HllImage ia = parse(a), ib = parse(b);
-    VF_CHECK(ia.mode == ib.mode, "order-independence", "result mode depends on the order of presentation: " << ia.mode << " vs " << ib.mode);
-    VF_CHECK(ia.regs == ib.regs && ia.coupons == ib.coupons && ia.lg_k == ib.lg_k, "order-independence", "result content depends on the order of presentation");
-    VF_CHECK(close(u.get_composite_estimate(), u2.get_composite_estimate(), 1e-9), "order-independence", "composite estimate depends on order: " << u.get_composite_estimate() << " vs " << u2.get_composite_estimate());
+    // A union that was reset keeps the representation of its gadget: after adopting a sketch that was started full size it is an empty
+    // HLL array, not an empty coupon list (hll_sketch::reset keeps start_full_size). The content is the same, the representation - and the
+    // estimator that goes with it - is not: after a reset the comparison is made on registers only.
+    const bool repr_may_differ = st.reset_lg_k >= 0;
+    if (!repr_may_differ || ia.mode == ib.mode) {
+      VF_CHECK(ia.mode == ib.mode, "order-independence", "result mode depends on the order of presentation: " << ia.mode << " vs " << ib.mode);
+      VF_CHECK(ia.regs == ib.regs && ia.coupons == ib.coupons && ia.lg_k == ib.lg_k, "order-independence", "result content depends on the order of presentation");
+      VF_CHECK(close(u.get_composite_estimate(), u2.get_composite_estimate(), 1e-9), "order-independence", "composite estimate depends on order: " << u.get_composite_estimate() << " vs " << u2.get_composite_estimate());
+    } else {
+      auto regs_of = [](const vf::HllImage& im) {
+        if (im.mode == 2) return im.regs;
+        std::vector<uint8_t> r(size_t(1) << im.lg_k, 0);
+        for (uint32_t c : im.coupons) { const size_t slot = c & ((size_t(1) << im.lg_k) - 1); r[slot] = std::max<uint8_t>(r[slot], static_cast<uint8_t>(c >> 26)); }
+        return r;
+      };
+      VF_CHECK(ia.lg_k == ib.lg_k && regs_of(ia) == regs_of(ib), "order-independence", "result content (as registers) depends on the order of presentation after a reset");
+      vf::label("post-reset-representation-differs");
+    }
     // a single sketch of the result's lg_k that saw every item
     uint64_t total = 0;
     for (const Step& s : st.steps) total += s.kind == 0 ? specs[s.idx].n + 300 : s.kind == 2 ? s.bulk_n : 1;
